@@ -44,6 +44,12 @@ LEAVES = [
      [P("now", "now")], "num", {}),
     ("Cache", "purge_updates_now", "_engine.py", "AsyncEngine._async_cache_cleanup", ("arg", "record_manager.async_updates", 0, 0),
      [P("now", "now")], "num", {}),
+    # `async_updates(now, records)` hands the SAME `records` object to every listener: it has to be a list.  A generator expression
+    # there is consumed by the first listener of the set, every other listener is told about no purged record (seeded defect C05-w5-seed1)
+    ("Cache", "purge_updates_is_list", "_engine.py", "AsyncEngine._async_cache_cleanup", ("arg_is_list", "record_manager.async_updates", 1, 0),
+     [], "bool", {}),
+    ("Cache", "add_listener_purge_updates_is_list", "_handlers/record_manager.py", "RecordManager.async_add_listener", ("arg_is_list", "self.async_updates", 1, 0),
+     [], "bool", {}),
     # ---- _services/browser.py (callback side only; the scheduler belongs to C10)
     ("Cache", "enqueue_test", "_services/browser.py", "_ServiceBrowserBase._enqueue_callback", ("if", "state_change", 0),
      [P("state_change is SERVICE_STATE_CHANGE_ADDED", "is_added", "bool"),
